@@ -51,7 +51,7 @@ def observed_per_test(o, reporter, scen):
     for p, _ in scen.root.tests():
         names.setdefault(p[-1], []).append("/".join(p))
     if reporter in ("text", "quiet"):
-        for l in impl_proj(o, reporter):
+        for l in impl_proj(o, reporter, top=scen.root.name):
             k, _, path = l.partition(" ")
             if k in ("fail", "exc"):
                 res.setdefault(path, [0, 0])[0 if k == "fail" else 1] += 1
